@@ -703,4 +703,4 @@ func TestFaults(t *testing.T) {
 	propFaults.Check(t, kit.N(300, 800))
 }
 
-func TestReplay(t *testing.T) { kit.Replay(t, propEnum, propMatrix, propFaults, propClient) }
+func TestReplay(t *testing.T) { kit.Replay(t, propEnum, propMatrix, propFaults, propClient, propRep) }
